@@ -1466,6 +1466,8 @@ def replay(run, path):
         line = "patch %s %s %s" % (r["mode"], hx(r["doc"]), hx(r["patch"]))
     elif r.get("kind") == "mpath":
         line = "mpath %s %s %s %s" % (r["mode"], hx(r["doc"]), hx(r["path"]), hx(r["val"]) if r.get("val") is not None else "-")
+    elif r.get("kind") == "reg":
+        line = "reg %s %s %s %s" % (r["mode"][1], hx(r["doc"]), hx(r["path"]), hx(r["val"]) if r.get("val") is not None else "-")
     else:
         line = "merge %s %s %s" % (r["mode"], hx(r["doc"]), hx(r["patch"]))
     env = dict(os.environ, ASAN_OPTIONS="detect_leaks=1", LSAN_OPTIONS="exitcode=0")
